@@ -174,6 +174,10 @@ def run_playback(crate, harness, test_code, timeout=900):
     d = crate_dir(crate)
     mod = harness.rsplit('::', 1)[0] if '::' in harness else ''
     pg = os.path.join(d, 'src', 'playback_gen.rs')
+    # keep only the test function: the generated doc comment can contain a multi-line assertion text that is not valid Rust
+    k = test_code.find('#[test]')
+    if k > 0:
+        test_code = test_code[k:]
     m = re.search(r'fn (kani_concrete_playback_\w+)', test_code)
     name = m.group(1) if m else 'kani_concrete_playback'
     try:
